@@ -223,3 +223,32 @@ func VH_C15_BatchedRenameThenModify() {
 		vAssert("batch2_second_acts_on_amy", am.updated[1].Login == "amy" && am.updatedNew[1] == "amy" && am.updated[1].Name == "Amelia" && am.updated[1].Password == "H:newpw")
 	}
 }
+
+// Restart: every account file in the accounts directory is an account again after the server starts, whatever its
+// login - a login starting with a dot, the empty login (file ".yaml") and one-byte logins ('.', 'a', '-', a high byte) included - so that
+// memory, listing and disk still agree.
+func VH_C15_RestartLoadsEveryAccountFile_sym() {
+	vfsReset()
+	const modern = "\n    DownloadFile: true\n"
+	logins := []string{"bob", ".hidden", ""}
+	one := vBytesEach("one_byte_login", 1)
+	if len(one) == 1 {
+		vAssume(one[0] == '.' || one[0] == 'a' || one[0] == '-' || one[0] == 0x8e)
+		logins = append(logins, string([]byte{byte(vConcrete(int(one[0])))}))
+	}
+	for _, l := range logins {
+		vfs.put("/cfg/Users/"+l+".yaml", []byte("Login: "+l+modern))
+	}
+	vfs.put("/cfg/Users/notes.txt", []byte("not an account"))
+	am, err := NewYAMLAccountManager("/cfg/Users")
+	vAssert("accounts_load", err == nil && am != nil)
+	if am == nil {
+		return
+	}
+	vAssert("as_many_accounts_as_files", len(am.List()) == len(logins))
+	for _, l := range logins {
+		a := am.Get(l)
+		vAssert("every_account_file_is_an_account_after_restart", a != nil && a.Login == l)
+	}
+	vAssert("loading_current_format_files_rewrites_nothing", len(vfsLog) == 0)
+}
